@@ -3,9 +3,13 @@ CONSTANTS
   Mode = 1
   MaxLen = 4
   MaxLenB = 0
+  MaxLenFam = 0
+  TopCombos = 8
   Level = 1
   SimMinLen = 1
   SimMaxLen = 0
+  Part1 = 0
+  Part2 = 0
 INIT Init
 NEXT Next
 INVARIANT Inv_MddRange
